@@ -18,7 +18,7 @@ RULE = sqlmon.RULE_HISTORIES + ' Resources with a shared deduped_resource_id; re
 ASSUMPTIONS = sqlmon.COMMON_ASSUMPTIONS
 SHARDS = {'quick': 4, 'thorough': 16}
 TIMEOUT = {'quick': 900, 'thorough': 3600}
-FLOORS = {'sql_routine:attempts_after_update': 300, 'sql_routine:attempt_resources_after_insert': 100, 'nonzero_usage_states_checked': 300,
+FLOORS = {'requests_served_in_the_middle_of_a_background_pass': 8, 'sql_routine:attempts_after_update': 300, 'sql_routine:attempt_resources_after_insert': 100, 'nonzero_usage_states_checked': 300,
           'op:compact': 20, 'op:compact_by_date': 20, 'distinct_billing_dates': 2}
 
 
@@ -64,4 +64,4 @@ class Billing(Monitor):
 def run(ctx):
     sqlmon.standard_run(ctx, lambda p: [Billing(p)],
                         cfg={'weights': {'job_complete': 14, 'job_started': 10, 'billing_update': 8, 'add_attempt_resources': 5, 'compact': 3, 'compact_by_date': 3,
-                                         'advance_clock': 6, 'deactivate_instance': 2, 'unschedule': 2}})
+                                         'advance_clock': 6, 'deactivate_instance': 2, 'unschedule': 2, 'interleaved_background': 8}})
